@@ -1,7 +1,7 @@
 (** Property C11 — the theorems the check counts as obligations.  Nothing but
     statements closed by [exact] and [Print Assumptions]. *)
 From HS Require Import Base.Prelude Base.PyLib C11.Model C11.NodeProofs C11.Election C11.Refute C11.LogProofs C11.LogMatching C11.Progress
-  C11.Completeness Gen.RaftLogGen C11.GenTie.
+  C11.Completeness C11.Steps C11.Progress2 Gen.RaftLogGen C11.GenTie.
 Local Open Scope Z_scope.
 
 (** Each node applies indices 1,2,3,... in order without gaps or repeats, for
@@ -183,6 +183,34 @@ Theorem c11_replication_round_partial : forall n f (p : nat),
   end.
 Proof. exact replication_round. Qed.
 Print Assumptions c11_replication_round_partial.
+
+(** Liveness, two more hops (PARTIAL, each for every node state meeting the
+    hypotheses): a successful reply that completes a quorum for an entry of the
+    leader's own term makes the leader commit at least that far, with everything
+    committed applied ... *)
+Theorem c11_commit_on_quorum_partial : forall n src f mi hi e,
+  role n = Leader -> apply_inv n -> log_get (log n) hi = Some e -> fst e = term n -> commit n < hi ->
+  1 + count_ge hi (aset f mi (match_index n)) >= quorum n ->
+  let n' := fst (node_step n (IMsg src (AppendResponse (term n) true f mi))) in
+  hi <= commit n' /\ commit n' <= last_applied n' /\ role n' = Leader /\ log n' = log n.
+Proof. exact commit_on_quorum. Qed.
+Print Assumptions c11_commit_on_quorum_partial.
+
+(** ... and the next AppendEntries hands an in-sync follower the leader's commit
+    index: its log becomes the leader's, it commits exactly that far, has applied
+    everything it committed, and every applied command is the log's entry. *)
+Theorem c11_follower_learns_commit_partial : forall n f (p : nat),
+  Z.of_nat p = aget (nid f) 1 (next_index n) - 1 -> (p <= length (log n))%nat -> log f = firstn p (log n) ->
+  term f <= term n -> zmem (nid n) (peers f) = true ->
+  apply_inv f -> ap_ok f -> apply_inv n ->
+  match append_entries_for n (nid f) with
+  | OSend d m =>
+      let r := node_step f (IMsg (nid n) m) in
+      log (fst r) = log n /\ commit (fst r) = Z.max (commit f) (commit n) /\ commit (fst r) <= last_applied (fst r) /\ ap_ok (fst r)
+  | _ => False
+  end.
+Proof. exact follower_learns_commit. Qed.
+Print Assumptions c11_follower_learns_commit_partial.
 
 (* ------------------------------------------------------------------ *)
 (** The replicated log of the CODE: consensus/log.py as REGENERATED on every run
